@@ -147,8 +147,11 @@ def uniform_region(vk, cfg):
     vk.ensures_eq("mass(uniform)==mass(general)", Mu, Mg, tol=tol)
 
 
-@contract("C10", "condensed_vs_threefield", configs=[dict(field=f) for f in ("3d", "planestrain", "axisymmetric")])
+@contract("C10", "condensed_vs_threefield", configs=[dict(field=f) for f in ("3d", "planestrain", "axisymmetric")] + [dict(field="planestrain", options=o) for o in ("parallel", "field+parallel")])
 def condensed_vs_threefield(vk, cfg):
+    # options: the per-call thread flag (and the field handed over again, as the Newton solver does) of the condensed body's
+    # assemble.vector -- the condensed vector is the explicit three-field one at the settled (p, J) all the same
+    opts = cfg.get("options", "")
     kind = cfg["field"]
     dim = 3 if kind == "3d" else 2
     cells = np.array([[0, 1, 2, 3]]) if dim == 3 else np.array([[0, 1, 2], [1, 3, 2]])
@@ -198,7 +201,12 @@ def condensed_vs_threefield(vk, cfg):
     try:
         fcon = fem.FieldContainer([cls(rg, dim=dim, values=u.copy())])
         condensed = fem.SolidBodyNearlyIncompressible(inner, fcon, bulk=bulk)
-        r_con = np.asarray(dense(vk, lambda: condensed.assemble.vector())).reshape(-1)
+        if opts == "parallel":
+            r_con = np.asarray(dense(vk, lambda: condensed.assemble.vector(parallel=True))).reshape(-1)
+        elif opts == "field+parallel":
+            r_con = np.asarray(dense(vk, lambda: condensed.assemble.vector(fcon, parallel=True))).reshape(-1)
+        else:
+            r_con = np.asarray(dense(vk, lambda: condensed.assemble.vector())).reshape(-1)
     finally:
         _H.AreaChange = _SI.AreaChange = real_ac
     vk.real(fem.SolidBodyNearlyIncompressible._vector)
